@@ -25,6 +25,7 @@ type SpecialCase struct {
 	NonReplayable bool   `json:"non_replayable"`
 	Seed          uint64 `json:"seed"`
 	KeyType       int    `json:"key_type"`
+	KeyName       string `json:"key_name"` // authoritative (the index shifts when the catalogue grows)
 	HashMode      string `json:"hash_mode"`
 	CollideN      int    `json:"collide_n"`
 	MinLen        int    `json:"min_len"`
@@ -349,6 +350,13 @@ func runKeys(sp *SpecialCase) *Outcome {
 	sim := simrt.New(simrt.Config{Seed: sp.Seed, Strategy: simrt.StrategyConfig{Kind: "random"}, Epoch: time.Date(2024, 1, 1, 0, 0, 0, 0, time.UTC).UnixNano(), StepBudget: 5000000})
 	defer sim.Close()
 	kt := keyCatalogue[sp.KeyType%len(keyCatalogue)]
+	if sp.KeyName != "" {
+		for _, k := range keyCatalogue {
+			if k.name == sp.KeyName {
+				kt = k
+			}
+		}
+	}
 	var bad []string
 	sim.Spawn("keys", func() { bad = kt.run(sp, r) })
 	out := sim.Run()
@@ -397,6 +405,7 @@ func genKeys(seed uint64, tier string) *Case {
 	case 3:
 		sp.HashMode, sp.CollideN = "collide", 2+r.Intn(3)
 	}
+	sp.KeyName = keyCatalogue[sp.KeyType].name
 	switch keyCatalogue[sp.KeyType].name {
 	case "*int", "unsafe.Pointer", "chan int", "struct withIface", "any", "struct ptrBox", "[1]*int":
 		// hashes of pointer-bearing keys depend on addresses: the bucket layout
